@@ -17,8 +17,13 @@ def run(tier):
     rep.assumptions = ["inputs are NUL-terminated strings", "vendored miniz.c is compiled without -fsanitize=alignment",
                        "leak detection is off (leaks are outside the statement)"]
     ex = exes()
+    QUICK = ["q_inline2", "q_lines2", "q_macro1", "q_extsub", "q_lang", "q_meta", "q_critic", "q_critic_range", "q_readers", "q_zipmut", "q_tofile", "q_engine_reuse"]
+    # the thorough plan is split between the two allocator modes (each level runs in one of them; the quick levels run in both)
+    THOROUGH = {"asan": QUICK + ["t_inline2", "t_critic", "t_critic_range", "t_readers", "t_macro2"],
+                "asan-nopool": QUICK + ["t_lines3", "t_extsub", "t_inline3", "t_lines4"]}
     for name, exe in sorted(ex.items()):
-        core.run_driver(rep, exe, tier, name.split("-", 1)[1], hang=30 if tier == "quick" else 120)
+        variant = name.split("-", 1)[1]
+        core.run_driver(rep, exe, "thorough" if tier != "quick" else "quick", variant, levels=QUICK if tier == "quick" else THOROUGH[variant], hang=30 if tier == "quick" else 120)
     core.confirm_violations(rep, ex)
     return rep.finish()
 
